@@ -62,6 +62,11 @@ type Handler struct {
 	// Bind: for a handler that is a closure built by a factory (`handlers[nt] = binaryOp(add)`): what each free
 	// variable of the closure holds, in terms of the values at the registration
 	Bind map[*ssa.FreeVar]ssa.Value
+	// ParamBind: for a handler that only delegates to a generic evaluator with extra arguments
+	// (`func less(c, e) error { return relational(c, e, lt) }`): Fn is the generic evaluator, Wrapper the registered
+	// function, and ParamBind what the evaluator's extra parameters hold
+	ParamBind map[*ssa.Parameter]ssa.Value
+	Wrapper   *ssa.Function
 }
 
 // boundFunc: the function a callee value of the handler body stands for: a function itself, or a free variable of the
@@ -74,6 +79,20 @@ func (h *Handler) boundFunc(v ssa.Value) *ssa.Function {
 	switch x := v.(type) {
 	case *ssa.Function:
 		return x
+	case *ssa.MakeClosure:
+		f, _ := x.Fn.(*ssa.Function)
+		return f
+	case *ssa.Parameter:
+		if h == nil || h.ParamBind == nil {
+			return nil
+		}
+		switch b := stripConv(h.ParamBind[x]).(type) {
+		case *ssa.Function:
+			return b
+		case *ssa.MakeClosure:
+			f, _ := b.Fn.(*ssa.Function)
+			return f
+		}
 	case *ssa.FreeVar:
 		if h == nil || h.Bind == nil {
 			return nil
@@ -341,7 +360,11 @@ func (w *World) extractHandlers(f *Facts) {
 				if old, dup := f.Handlers[nt]; dup && old.Fn != hf {
 					f.HandlerDup = append(f.HandlerDup, nt)
 				}
-				f.Handlers[nt] = &Handler{NT: nt, Fn: hf, Pos: pos, Bind: bind}
+				hd := &Handler{NT: nt, Fn: hf, Pos: pos, Bind: bind}
+				if g, pb := delegatesTo(hf); g != nil {
+					hd.Fn, hd.ParamBind, hd.Wrapper = g, pb, hf
+				}
+				f.Handlers[nt] = hd
 			}
 			// `for nt, fn := range table { handlers[nt] = fn }`: the entries of the table that is ranged over
 			if kx, ok := mu.Key.(*ssa.Extract); ok {
@@ -617,4 +640,48 @@ func closureFromFactory(call *ssa.Call) (*ssa.Function, map[*ssa.FreeVar]ssa.Val
 		}
 	}
 	return fn, bind
+}
+
+// delegatesTo: hf does nothing but `return g(ctx, expr, extra...)` with its own two parameters passed through and
+// function values (or constants) as the extra arguments: returns g and what its extra parameters are bound to.
+func delegatesTo(hf *ssa.Function) (*ssa.Function, map[*ssa.Parameter]ssa.Value) {
+	if hf == nil || len(hf.Params) != 2 || len(hf.Blocks) != 1 {
+		return nil, nil
+	}
+	var call *ssa.Call
+	n := 0
+	for _, in := range hf.Blocks[0].Instrs {
+		switch x := in.(type) {
+		case *ssa.Call:
+			call = x
+			n++
+		case *ssa.MakeClosure, *ssa.Return, *ssa.DebugRef, *ssa.ChangeType:
+		default:
+			return nil, nil
+		}
+	}
+	if n != 1 || call == nil {
+		return nil, nil
+	}
+	g := staticCallee(call)
+	if g == nil || !inRepo(g) || len(call.Call.Args) < 3 || len(g.Params) != len(call.Call.Args) {
+		return nil, nil
+	}
+	if call.Call.Args[0] != ssa.Value(hf.Params[0]) || call.Call.Args[1] != ssa.Value(hf.Params[1]) {
+		return nil, nil
+	}
+	ret, ok := hf.Blocks[0].Instrs[len(hf.Blocks[0].Instrs)-1].(*ssa.Return)
+	if !ok || len(ret.Results) != 1 || ret.Results[0] != ssa.Value(call) {
+		return nil, nil
+	}
+	pb := map[*ssa.Parameter]ssa.Value{}
+	for i := 2; i < len(call.Call.Args); i++ {
+		switch stripConv(call.Call.Args[i]).(type) {
+		case *ssa.Function, *ssa.MakeClosure, *ssa.Const:
+			pb[g.Params[i]] = call.Call.Args[i]
+		default:
+			return nil, nil
+		}
+	}
+	return g, pb
 }
